@@ -515,3 +515,8 @@ def check(rep):
     rule_alt_index(rep)
     rule_builtins(rep)
     rule_protocol(rep)
+    from .C03 import rule_visitor_order
+    from .C15 import rule_actions_reset
+
+    rule_visitor_order(rep)  # deferred routes (call_actions, tree building) walk the tree with visitor()
+    rule_actions_reset(rep)  # which action runs for a symbol is decided per parser, never inherited
